@@ -216,6 +216,25 @@ static void check_plu(const Mat &M, const std::vector<std::vector<long>> &rhs)
             if (m > 0) { worst[1] = std::max(worst[1], (double)(err / ((Q)EPS * m))); }
             if (!(err <= 16 * n * (Q)EPS * m)) { R.viol(cls + "|solve-residual", "the residual of a_real_plu_solve in row " + std::to_string(r) + " is " + num((double)err) + ", beyond the componentwise bound " + num((double)(16 * n * (Q)EPS * m)), in); return; }
         }
+        // the exported building blocks (permute, forward substitution, back substitution) compose to the same solution
+        {
+            Buf y((size_t)n);
+            a_real_plu_apply((a_uint)n, pp, b.data(), y.p());
+            bool perm_ok = true;
+            for (int i = 0; i < n; ++i) { if (y.p()[i] != b[(size_t)pp[i]]) { perm_ok = false; } }
+            if (!y.ok() || !perm_ok) { R.viol(cls + "|apply", "a_real_plu_apply does not produce P*b (or writes outside it)", in); return; }
+            a_real_plu_lower((a_uint)n, A.p(), y.p());
+            a_real_plu_upper((a_uint)n, A.p(), y.p());
+            ++n_eval;
+            if (!y.ok()) { R.viol(cls + "|overrun", "a_real_plu_lower / a_real_plu_upper wrote outside the vector", in); return; }
+            for (int i = 0; i < n; ++i)
+            {
+                int r = (int)pp[i];
+                Q sres = 0, m = fabsq((Q)b[(size_t)r]);
+                for (int j = 0; j < n; ++j) { sres += (Q)A0[(size_t)(r * n + j)] * y.p()[j]; m += absLU[(size_t)(i * n + j)] * fabsq((Q)y.p()[j]); }
+                if (!(fabsq(sres - b[(size_t)r]) <= 16 * n * (Q)EPS * m)) { R.viol(cls + "|substitution-residual", "apply + lower + upper do not solve the system: residual " + num((double)fabsq(sres - b[(size_t)r])) + " in row " + std::to_string(r), in); return; }
+            }
+        }
     }
     // inverse: buffered and strided in-place variants
     {
@@ -368,6 +387,21 @@ static void check_sym(const Mat &M, const std::vector<std::vector<long>> &rhs, b
             Q err = fabsq(s - (Q)b0[(size_t)i]);
             if (m > 0) { worst[4] = std::max(worst[4], (double)(err / ((Q)EPS * m))); }
             if (!(err <= 32 * n * (Q)EPS * m)) { R.viol(cls + "|solve-residual", "the residual of the solve in component " + std::to_string(i) + " is " + num((double)err) + ", beyond the bound " + num((double)(32 * n * (Q)EPS * m)), in); return; }
+        }
+        // forward and back substitution, called separately, compose to the same solution
+        {
+            Buf y((size_t)n);
+            for (int i = 0; i < n; ++i) { y.p()[i] = (a_real)b0[(size_t)i]; }
+            if (chol) { a_real_llt_lower((a_uint)n, A.p(), y.p()); a_real_llt_upper((a_uint)n, A.p(), y.p()); }
+            else { a_real_ldl_lower((a_uint)n, A.p(), y.p()); a_real_ldl_upper((a_uint)n, A.p(), y.p()); }
+            ++n_eval;
+            if (!y.ok()) { R.viol(cls + "|overrun", "a substitution routine wrote outside the vector", in); return; }
+            for (int i = 0; i < n; ++i)
+            {
+                Q sres = 0, m = fabsq((Q)b0[(size_t)i]);
+                for (int j = 0; j < n; ++j) { sres += (Q)A0[(size_t)(i * n + j)] * y.p()[j]; m += absprod(i, j) * fabsq((Q)y.p()[j]); }
+                if (!(fabsq(sres - (Q)b0[(size_t)i]) <= 32 * n * (Q)EPS * m)) { R.viol(cls + "|substitution-residual", "lower + upper do not solve the system: residual " + num((double)fabsq(sres - (Q)b0[(size_t)i])) + " in component " + std::to_string(i), in); return; }
+            }
         }
     }
     {
